@@ -48,7 +48,7 @@ CanRequest(c, s) == s.pc = "next" /\ ~Completed(c, s)
 (* the specification's steps for one request, with the environment's choices taken from the record *)
 ModelStep(c, s, e) ==
     LET s1 == YieldStep(c, s, e.inc)
-        s2 == IssueStep(SleepStep(s1))
+        s2 == IssueStep(SleepStep(s1, 0))   \* e.ext: the event was set when the runner returned (during the wait or the request)
         s3 == WireStartStep(s2, e.ws - e.issue)
         s4 == WireEndStep(s3, e.we - e.ws)
         s5 == ReturnStep(c, s4, e.ret - e.we, e.ok, e.w, e.ext)
